@@ -14,10 +14,12 @@ package kgo
 //@ func (g *groupConsumer) updateUncommitted(fetches Fetches)
 //@   prop C08
 //@   frozen g.cfg, g.cfg.autocommitDisable, g.cfg.autocommitGreedy
+//@   loop 2 invariant [the-map-in-hand-is-this-topics-map] topicOffsets != nil ==> (in(g.uncommitted, topic.Topic) && topicOffsets == g.uncommitted[topic.Topic])
 //@   site store Offset#0 assert [one-past-the-last-returned-record] val == final.Offset + 1
 //@   site store Epoch#0 assert [with-that-records-leader-epoch] val == final.LeaderEpoch
 //@   site mapupdate uncommit#0 assert [new-partition-starts-with-nothing-to-commit] !had && val.head.Epoch == -1 && val.head.Offset == 0 && val.dirty == val.head && val.committed == val.head
 //@   site mapupdate uncommit#1 assert [dirty-is-that-position] mapkey == partition.Partition && val.dirty == set
+//@   site mapupdate uncommit#1 assert [recorded-under-the-partitions-own-topic] map == g.uncommitted[topic.Topic] && in(g.uncommitted, topic.Topic)
 //@   site mapupdate uncommit#1 assert [head-not-advanced-under-default-autocommit] (!g.cfg.autocommitDisable && !g.cfg.autocommitGreedy) ==> (had && val.head == prev.head)
 //@   site mapupdate uncommit#1 assert [committed-untouched] had && val.committed == prev.committed
 
@@ -62,3 +64,28 @@ package kgo
 //@   prop C08
 //@ audit calls (*groupConsumer).getUncommitted except (*Client).UncommittedOffsets assert [dirty-offsets-only-for-the-read-only-accessor] !arg1
 //@   prop C08
+
+// updateCommitted (a commit response arrived): `committed` becomes exactly what the request committed for that
+// partition; head is only ever forwarded to THAT committed position (never to dirty: records returned by the latest
+// poll stay uncommittable until the next poll starts), and only when it was behind it; dirty is untouched.
+//@ func (e EpochOffset) Less(o EpochOffset) (r bool)
+//@   prop C08
+//@   pure
+//@   ensures r == (max(e.Epoch, -1) < max(o.Epoch, -1) || (max(e.Epoch, -1) == max(o.Epoch, -1) && e.Offset < o.Offset))
+//@ func (g *groupConsumer) updateCommitted(req *kmsg.OffsetCommitRequest, resp *kmsg.OffsetCommitResponse)
+//@   prop C08
+//@   site store committed#0 assert [committed-is-the-position-built-from-the-request] val == set
+//@   site store head#0 assert [head-forwarded-only-to-the-committed-position] val == set && $Less0
+//@   site call Less#0 assert [forwarded-only-when-behind-the-commit] arg0 == uncommit.head && arg1 == set
+//@   site mapupdate uncommit#0 assert [stored-under-the-answered-partition] mapkey == respPart.Partition
+
+// discardBuffered (a session stops: rebalance, SetOffsets, purge): a buffered fetch that was never handed to the
+// application is dropped WITHOUT moving the cursors past it (finishUsingAll, not finishUsingAllWithSet): the
+// partitions the member keeps are fetched again from where the application actually is, so no commit can move
+// past records that were never returned. takeBuffered (a poll takes the fetch) is the one that moves the cursors.
+//@ func (s *source) discardBuffered()
+//@   prop C08
+//@   site call takeBufferedFn#0 assert [dropped-without-advancing-the-cursors] isfunc(arg2, "finishUsingAll") && !arg1
+//@ func (s *source) takeBuffered(paused pausedTopics) (f Fetch)
+//@   prop C08
+//@   site call takeBufferedFn#0 assert [taken-with-the-cursors-advanced] isfunc(arg2, "finishUsingAllWithSet") && arg1
